@@ -253,6 +253,10 @@ func checkC02(p *Program, r *Report) {
 	c02guards(p, r, scope)
 	c02padding(p, r)
 	c02checksum(p, r)
+	if canonicalInput(p, r, "C02.canon", roots) == 0 {
+		r.Note("C02.canon: no normalising or Unicode case-mapping call is reachable from the decoders")
+	}
+	base58ByteLookup(p, r, "C02.canon")
 }
 
 // regroupRoles recognises the bit-regrouping function: an outer loop with a
@@ -437,31 +441,9 @@ func c02guards(p *Program, r *Report, scope []*ssa.Function) {
 			}
 			r.Add("C02.guards", FnName(dc), fmt.Sprintf("accepting return #%d: a prefix separator was seen", i+1), ap.Ret.Pos(), okPrefix, "separator position ≠ 0 on every path")
 		}
-		// mixed case: a block reached only when both the 'saw upper' and the 'saw lower' flags are true rejects
-		okCase := false
-		for _, b := range dc.Blocks {
-			iff, ok := lastInstr(b).(*ssa.If)
-			if !ok {
-				continue
-			}
-			ph1, ok := iff.Cond.(*ssa.Phi)
-			if !ok || !isBoolPhi(ph1) {
-				continue
-			}
-			inner := b.Succs[0]
-			iff2, ok := lastInstr(inner).(*ssa.If)
-			if !ok || len(inner.Preds) != 1 {
-				continue
-			}
-			ph2, ok := iff2.Cond.(*ssa.Phi)
-			if !ok || !isBoolPhi(ph2) || ph2 == ph1 {
-				continue
-			}
-			if !canReachAccept(dc, inner.Succs[0]) {
-				okCase = true
-			}
-		}
-		r.Add("C02.guards", FnName(dc), "strings mixing upper and lower case reject", dc.Pos(), okCase, "the block where both case flags are set leads only to error returns")
+		// mixed case: flags set exactly for a..z / A..Z over the whole input; both set rejects
+		exact, rej, why := caseFlagsExact(p, dc, dc.Params[0])
+		r.Add("C02.guards", FnName(dc), "strings mixing upper and lower case reject", dc.Pos(), exact && rej, "flags cover exactly a..z and A..Z; the block where both are set leads only to error returns "+why)
 	}
 	r.Floor("C02.guards", 5)
 }
@@ -600,6 +582,17 @@ func c02checksum(p *Program, r *Report) {
 				cal := call.Call.StaticCallee()
 				if decoderVerifiesChecksum(p, cal, 0) {
 					ok, how = true, "err == nil of "+FnName(cal)+" (checksum-verifying)"
+					// a Base58Check result carries its version byte: the constructed address must take it from the string
+					if cal.Pkg != da.Pkg && ap.Delegate != nil && cal.Signature.Results().Len() == 3 {
+						flows := false
+						for _, a := range ap.Delegate.Call.Args {
+							if ex2, isE2 := stripIntConv(a).(*ssa.Extract); isE2 && ex2.Tuple == ssa.Value(call) && ex2.Index == 1 {
+								flows = true
+							}
+						}
+						r.Add("C02.guards", FnName(da), fmt.Sprintf("legacy accepting return #%d builds the address from the decoded version byte", i+1), ap.Ret.Pos(), flows,
+							"the address belongs to exactly the networks whose version byte the string carries, not to the network asked for")
+					}
 				}
 			}
 		}
